@@ -439,6 +439,15 @@ fn struct_cases(files: &BTreeMap<u64, FileImg>, rng: &mut Rng, count: usize, out
         vec![Op::Add(Extra::File { name: wal_name(last + 1), content: fake_header_block(rng) })],
         vec![Op::Add(Extra::File { name: wal_name(last + 2), content: garbage(rng, 4 * BLOCK) })],
     ];
+    // names of the right shape whose 20 digits do not fit a u64, or sit at its edge: as stray empty
+    // files, as stray full-size files, and as the name of a copy of a real WAL file
+    for digits in ["18446744073709551616", "18446744073709551617", "18446744073709551625", "20000000000000000000",
+                   "99999999999999999999", "18446744073709551614", "09223372036854775808"] {
+        let name = format!("wal-{digits}").into_bytes();
+        fixed.push(vec![Op::Add(Extra::File { name: name.clone(), content: Vec::new() })]);
+        fixed.push(vec![Op::Add(Extra::File { name: name.clone(), content: vec![0u8; 4 * BLOCK] })]);
+        fixed.push(vec![Op::Add(Extra::File { name, content: files[&last].data.clone() })]);
+    }
     // 24-byte names that are not 24 characters (a multi-byte character across byte offsets 3..6)
     for name in crate::names::straddling_names() {
         let cut = name.iter().position(|byte| *byte >= 0x80).unwrap_or(0);
